@@ -408,7 +408,7 @@ SHIMS = {
     "_sx_getitem": _sx_getitem,
 }
 SHIM_NAMES = ["struct.pack", "struct.unpack", "len", "int", "float", "isinstance", "range", "hex",
-              "<const>.join", "<const>.format", "f-strings", "list[symbolic index]", "logging calls (empty bodies)"]
+              "<const>.join", "<const>.format", "f-strings", "list[symbolic index]", "logging calls (empty bodies)", "re.search (class LIT(.*)LIT..., sx/rx.py)"]
 
 
 class _Loader(importlib.machinery.SourceFileLoader):
@@ -427,6 +427,10 @@ class _Loader(importlib.machinery.SourceFileLoader):
         d = module.__dict__
         if d.get("struct") is _struct:
             d["struct"] = STRUCT_SHIM
+        import re as _real_re
+        if d.get("re") is _real_re:
+            from .rx import ReShim
+            d["re"] = ReShim()
         for k, v in SHIMS.items():
             d[k] = v
         LOADED.append(module.__name__)
